@@ -64,6 +64,10 @@ func (c08) Gen(r *Rng, tier string, run int) *Trace {
 		g.emit(op, true)
 	}
 	g.emit(Op{Obj: s1, M: "Push", Args: []Val{g.plain(), g.plain()}}, true)
+	// a parent that nests the stack under attack (native, alias or pointer):
+	// whatever lands in s0 is also met one level deeper by the parent's queries
+	parent := g.addStack(g.kind(), 0)
+	g.emit(Op{Obj: parent, M: "Push", Args: []Val{g.plain(), vRef(s0, r.Intn(nDress)), vRef(c2, r.PickInt(dNative, dAlias, dPtrNative))}}, true)
 	awk := func() Val { return vAwk(r.Intn(nAwk)) }
 	n := r.Range(3, 25)
 	for i := 0; i < n; i++ {
@@ -156,7 +160,17 @@ func (c08) Gen(r *Rng, tier string, run int) *Trace {
 		default:
 			// queries over whatever the stack now holds
 			m := r.PickStr("String", "Unmarshal", "IsNesting", "Valid", "Front", "Back", "Kind", "Len")
-			g.emit(Op{Obj: []int{s0, s0, c2}[r.Intn(3)], M: m, Tag: "hc"}, false)
+			o := []int{s0, s0, c2, parent, parent}[r.Intn(5)]
+			op := Op{Obj: o, M: m, Tag: "hc"}
+			if o == parent && r.Bool(0.4) {
+				op = []Op{
+					{Obj: parent, M: "Traverse", Args: []Val{vInt(1), vInt(hostileInts(L, r))}, Tag: "hc"},
+					{Obj: parent, M: "Traverse", Args: []Val{vInt(1), vInt(r.Range(0, L)), vInt(0)}, Tag: "hc"},
+					{Obj: parent, M: "IsEqual", Args: []Val{vRef(parent, r.Intn(nDress))}, Tag: "hc"},
+					{Obj: parent, M: "IsEqual", Args: []Val{vRef(s1, 0)}, Tag: "hc"},
+				}[r.Intn(4)]
+			}
+			g.emit(op, false)
 		}
 	}
 	return g.tr
@@ -204,7 +218,7 @@ func (c08) AfterOp(x *Exec, task, idx int, op Op, out Outcome) {
 			x.fail("dump-changed:"+op.M, fmt.Sprintf("query %s changed its receiver:\n before: %s\n after:  %s", op, st.dumps[op.Obj], now[op.Obj]))
 			return
 		}
-		if op.M == "Index" || (op.M == "Traverse" && len(op.Args) > 0) {
+		if op.Obj == 0 && (op.M == "Index" || (op.M == "Traverse" && len(op.Args) > 0)) {
 			i := int(op.Args[0].I)
 			p, ok := m.resolve(i)
 			if !ok || m.Elems[p].Nil {
